@@ -411,7 +411,7 @@ func (g *VGen) EqVariants(v *ty.Val) []*ty.Val {
 		switch v.K {
 		case ty.VSlice:
 			if mode == 0 {
-				c.Spare = 3 - v.Spare
+				c.Spare = 9 - v.Spare
 				if c.Spare < 0 {
 					c.Spare = 0
 				}
